@@ -588,11 +588,10 @@ Proof.
     { apply forallb_forall. apply (all_limits_implied now opts' opts period query p H' E2). } congruence.
 Qed.
 
-(* ---- has_tag with a value pattern (item.cc:58-72; `%word=value`, `tag word=value`).
+(* ---- has_tag with a value pattern (item.cc:58-73; `%word=value`, `tag word=value`).
    The documented meaning (doc/ledger3.texi "tag word=value: any metadata tag containing 'word'
-   whose value contains 'value'") is tag_pair_matches.  The scan is sound for it, complete when
-   all valued tags whose name matches agree about the value pattern, and NOT complete in general:
-   the first valued tag whose name matches decides (finding F207). ---- *)
+   whose value contains 'value'") is tag_pair_matches; the scan decides exactly that (since the
+   repair 27e3f7d of finding F207). ---- *)
 Definition tag_pair_matches (tp vm : str) (tags : tagmap) : Prop :=
   exists k v, In (k, Some v) tags /\ contains_ci tp k = true /\ contains_ci vm v = true.
 
@@ -600,28 +599,24 @@ Lemma tag_scan_value_sound tp vm tags :
   tag_scan tp (Some vm) tags = true -> tag_pair_matches tp vm tags.
 Proof.
   induction tags as [|[k v] t IH]; cbn [tag_scan]; [discriminate|].
-  destruct (contains_ci tp k) eqn:E.
-  - destruct v as [vs|].
-    + intros H. exists k, vs. split; [left; reflexivity|auto].
-    + intros H. destruct (IH H) as (k' & v' & I & A & B). exists k', v'. split; [right; exact I|auto].
-  - intros H. destruct (IH H) as (k' & v' & I & A & B). exists k', v'. split; [right; exact I|auto].
+  assert (R : tag_scan tp (Some vm) t = true -> tag_pair_matches tp vm ((k, v) :: t)).
+  { intros H. destruct (IH H) as (k' & v' & I & A & B). exists k', v'. split; [right; exact I|auto]. }
+  destruct (contains_ci tp k) eqn:E; [|exact R].
+  destruct v as [vs|]; [|exact R].
+  destruct (contains_ci vm vs) eqn:E2; [|exact R].
+  intros _. exists k, vs. split; [left; reflexivity|auto].
 Qed.
 
-Lemma tag_scan_value_complete_agreeing tp vm tags :
-  tag_pair_matches tp vm tags ->
-  (forall k v, In (k, Some v) tags -> contains_ci tp k = true -> contains_ci vm v = true) ->
-  tag_scan tp (Some vm) tags = true.
+Lemma tag_scan_value_complete tp vm tags :
+  tag_pair_matches tp vm tags -> tag_scan tp (Some vm) tags = true.
 Proof.
-  induction tags as [|[k v] t IH]; intros (k0 & v0 & I & A & B) U; [destruct I|].
-  cbn [tag_scan]. destruct (contains_ci tp k) eqn:E.
-  - destruct v as [vs|].
-    + apply (U k vs); [left; reflexivity|exact E].
-    + apply IH.
-      * destruct I as [X|I]; [discriminate X|]. exists k0, v0. auto.
-      * intros k' v' I' A'. apply (U k' v'); [right; exact I'|exact A'].
-  - apply IH.
-    + destruct I as [X|I]; [inversion X; subst; congruence|]. exists k0, v0. auto.
-    + intros k' v' I' A'. apply (U k' v'); [right; exact I'|exact A'].
+  induction tags as [|[k v] t IH]; intros (k0 & v0 & I & A & B); [destruct I|].
+  cbn [tag_scan]. destruct I as [X|I].
+  - inversion X; subst. rewrite A, B. reflexivity.
+  - assert (R : tag_scan tp (Some vm) t = true) by (apply IH; exists k0, v0; auto).
+    destruct (contains_ci tp k); [|exact R].
+    destruct v as [vs|]; [|exact R].
+    destruct (contains_ci vm vs); [reflexivity|exact R].
 Qed.
 
 Lemma has_tag_value_sound_lemma tp vm p :
@@ -632,13 +627,10 @@ Proof.
     exists k, v; (split; [apply in_or_app; auto|auto]).
 Qed.
 
-Lemma has_tag_value_complete_agreeing_lemma tp vm p :
-  tag_pair_matches tp vm (p_tags p ++ p_xtags p) ->
-  (forall k v, In (k, Some v) (p_tags p ++ p_xtags p) -> contains_ci tp k = true -> contains_ci vm v = true) ->
-  has_tag tp (Some vm) p = true.
+Lemma has_tag_value_complete_lemma tp vm p :
+  tag_pair_matches tp vm (p_tags p ++ p_xtags p) -> has_tag tp (Some vm) p = true.
 Proof.
-  intros (k & v & I & A & B) U. unfold has_tag. apply orb_true_iff.
+  intros (k & v & I & A & B). unfold has_tag. apply orb_true_iff.
   apply in_app_or in I. destruct I as [I|I]; [left|right];
-    (apply tag_scan_value_complete_agreeing;
-     [exists k, v; auto|intros k' v' I' A'; apply (U k' v'); [apply in_or_app; auto|exact A']]).
+    (apply tag_scan_value_complete; exists k, v; auto).
 Qed.
